@@ -23,3 +23,34 @@ Record patch := mkPatch {
   p_op    : string;          (* operation name recorded *)
   p_tattr : option string    (* target_attr of container wrappers *)
 }.
+
+(* ------------------------------------------------------------------ Journal methods, statement by statement
+   (translated from src/onnx_ir/journaling/_journaling.py on every run; interpreted in C20/Journal.v) *)
+
+Inductive jval :=
+| VCur                       (* _current_journal *)
+| VSelf                      (* self *)
+| VSelfField (f : string)    (* self.<f> *)
+| VWrapClasses               (* _wrappers.wrap_ir_classes(self) *)
+| VParam (x : string)        (* a parameter of the method (exc_value, obj, ...) *)
+| VLocal (x : string).       (* a local variable (entry) *)
+
+(* what a keyword argument of JournalEntry(...) keeps of the recorded object `obj` *)
+Inductive ekind :=
+| KScalar                    (* nothing: strings, numbers, the class, id(obj), FrameSummary list *)
+| KWeakObj                   (* weakref.ref(obj) if obj is not None else None *)
+| KStrongObj.                (* the object itself (or anything else that reaches it) *)
+
+Inductive ikind := INone | IEmptyList | IEmptyDict.
+
+Inductive jstmt :=
+| JGlobal                                              (* global _current_journal *)
+| JSetField (f : string) (v : jval)                    (* self.f = v *)
+| JSetCur (v : jval)                                   (* _current_journal = v *)
+| JRestore (v : jval)                                  (* _wrappers.restore_ir_classes(v) *)
+| JReturn (v : jval)                                   (* return v *)
+| JNewEntry (x : string) (fields : list (string * ekind))   (* x = JournalEntry(k=..., ...) *)
+| JAppendField (f : string) (v : jval)                 (* self.f.append(v) *)
+| JForCall (f : string) (v : jval)                     (* for h in self.f: h(v) *)
+| JInitField (f : string) (k : ikind)                  (* self.f = [] / {} / None   (in __init__) *)
+| JOther (src : string).                               (* anything else: has no meaning in the model *)
